@@ -150,6 +150,9 @@ func c10Staged(c *core.Case, o *core.Outcome) {
 		if startGiven {
 			b := base
 			startPtr = &b
+		} else if r.IntN(6) == 0 {
+			// a clock whose origin is the zero time: the first query still defines the start
+			base = time.Time{}
 		}
 		if startGiven && r.IntN(2) == 0 {
 			// a preview of the same plan from the same start variable (as a dry run would), evaluated first
@@ -303,7 +306,10 @@ func c10Ramp(c *core.Case, o *core.Outcome) {
 		if r.IntN(4) == 0 {
 			dur = unit * time.Duration(1+r.IntN(100))
 		}
-		if r.IntN(5) == 0 {
+		if r.IntN(12) == 0 {
+			// ramps of several months (more nanoseconds than a float64 holds exactly)
+			dur = time.Duration(2500+r.IntN(8000))*time.Hour + time.Duration(r.IntN(1000))
+		} else if r.IntN(5) == 0 {
 			// long, high-rate ramps
 			dur = time.Duration(1+r.IntN(48)) * time.Hour
 			s, e = r.IntN(2_000_001), r.IntN(2_000_001)
@@ -337,7 +343,7 @@ func c10Ramp(c *core.Case, o *core.Outcome) {
 		for q := 2 + r.IntN(10); q > 0; q-- {
 			offs = append(offs, time.Duration(r.Int64N(int64(dur))))
 		}
-		offs = append(offs, dur-1, dur+1, dur+time.Duration(1+r.Int64N(int64(time.Hour))))
+		offs = append(offs, dur-1, dur+1, dur+2, dur+3, dur+time.Duration(1+r.Int64N(int64(time.Hour))))
 		sortDurations(offs)
 		key := fmt.Sprintf("%s>%s/%v", sa, ea, dur)
 		last := 0
